@@ -448,14 +448,13 @@ class RawAlgorithmsMixIn:
 
         # left shifting x_data and y_data if necessary
 
-        mask = Ellipsis
-        while True:
-            mask = numpy.where( abs(y_data[0, mask]) <= 1e-8)
+        for nshift in range(D):
+            # entries (of any direction) whose current leading coefficient of y vanishes; the
+            # mask is recomputed over ALL entries in every pass
+            mask = abs(y_data[0]) <= 1e-8
 
-            if len(mask[0]) == 0:
+            if not numpy.any(mask):
                 break
-            elif len(mask) == 1:
-                mask = mask[0]
 
             x_data[:D-1, mask] = x_data[1:, mask]
             x_data[D-1,  mask] = 0.
